@@ -190,6 +190,21 @@ def run_prefix(case):
     if ok:
         expect_chords("progressions.to_chords(%r, %r)" % (prog, key), got, wants, tags={"k": k, "how": "repeated numeral"})
         S.count("progressions_repeating_a_numeral")
+        # the caller edits its own list object in place (entries swapped, one made unrecognisable) and asks again
+        if len(prog) >= 2:
+            prog[0], prog[-1] = prog[-1], prog[0]
+            wants2 = [wants[-1]] + wants[1:-1] + [wants[0]]
+            ok, got = call("progressions.to_chords(<the same list object, first and last entry swapped> %r, %r)" % (prog, key), mprog.to_chords, prog, key)
+            S.trans(1)
+            if ok:
+                expect_chords("progressions.to_chords(the same list object after its first and last entry were swapped: %r, %r)" % (prog, key),
+                              got, wants2, tags={"k": k, "how": "list edited in place"})
+            prog[0] = "VIII"
+            ok, got = call("progressions.to_chords(<the same list object, first entry unrecognisable> %r, %r)" % (prog, key), mprog.to_chords, prog, key)
+            S.trans(1)
+            if ok and got != []:
+                S.problem("progressions.to_chords(the same list object after its first entry became 'VIII': %r, %r)" % (prog, key), [], got,
+                          tags={"k": k, "how": "list edited in place"})
 
 
 def gen_prefix(key):
@@ -696,6 +711,14 @@ def run_call_order(case):
             # the first key this process ever hears of is another one (its relative key, for instance)
             mchords.triads(first[6:])
             mchords.sevenths(first[6:])
+            # ... and the caller writes on the lists it got about that other key
+            for fn in (_mkeys.get_key_signature_accidentals, _mkeys.get_notes):
+                try:
+                    r = fn(first[6:])
+                    r.append("Fx")
+                    r[:1] = ["Zb", "Zb"]
+                except Exception:                               # noqa
+                    pass
         else:
             raise engine.HarnessError("unknown first question %r" % (first,))
     except Exception as e:                                   # noqa
